@@ -2236,7 +2236,7 @@ func opClone(h *Hist) {
 		return
 	}
 	derivedBelow := h.hasDerivedBelow(n)
-	if len(h.nodes)+len(reach(n)) > h.maxNodes+8 && !(h.sizeClass >= 2 && len(h.nodes) < 1500) {
+	if len(h.nodes)+len(reach(n)) > h.maxNodes+8 && !(h.sizeClass >= 2 && len(h.nodes) < 25000) {
 		return
 	}
 	h.begin("Clone", "C08")
@@ -2259,10 +2259,13 @@ func opClone(h *Hist) {
 		return
 	}
 	// every container reachable from the clone is related to every container reachable from the source
+	// (kept as two tags per Clone call rather than pairwise: a tree of thousands of containers is cloned in linear time)
+	h.cloneCalls++
 	for _, a := range sortedNodes(reach(r)) {
-		for _, b := range src {
-			h.relate(a.ID, b.ID, "clone")
-		}
+		h.cloneTags[a.ID] = append(h.cloneTags[a.ID], 2*h.cloneCalls)
+	}
+	for _, b := range src {
+		h.cloneTags[b.ID] = append(h.cloneTags[b.ID], 2*h.cloneCalls+1)
 	}
 	h.aliased = true
 	if len(src) > 1 {
@@ -2380,6 +2383,10 @@ var hugeSizes = []int{63, 64, 65, 100, 127, 128, 129, 255, 256, 257, 300, 511, 5
 // beginning, in the middle and in the tail: implementations that switch strategy at a size threshold
 // (chunked copies, batch workers) behave differently only there.
 func opNewHuge(h *Hist) {
+	if h.d.Draw("huge-many-containers", 12) == 0 {
+		opNewManyContainers(h)
+		return
+	}
 	h.begin("NewList", "C05")
 	size := hugeSizes[h.d.Draw("huge-size", len(hugeSizes))]
 	n := h.newNode(false, "NewList")
@@ -2677,4 +2684,32 @@ func (h *Hist) tail(label string, small int, big int) int {
 		return small + h.d.Draw(label+"-big", big)
 	}
 	return h.d.Draw(label, small)
+}
+
+// opNewManyContainers builds one list holding more than ten thousand empty containers (counters of visited
+// containers, depth budgets and pools have limits far above ordinary trees).
+func opNewManyContainers(h *Hist) {
+	h.begin("NewList", "C05")
+	size := []int{10001, 10500, 16385}[h.d.Draw("many-size", 3)]
+	n := h.newNode(false, "NewList")
+	n.Pend = &pending{mode: pendFresh, group: h.group}
+	gvs := make([]any, size)
+	for i := 0; i < size; i++ {
+		c := h.newPending(i%2 == 0, "NewList", pendFresh, nil)
+		if c.IsObj {
+			gvs[i] = map[string]any{}
+		} else {
+			gvs[i] = []any{}
+		}
+		n.Elems = append(n.Elems, mRef(c))
+	}
+	var l at.List
+	p, msg := h.call(func() { l = at.NewList(gvs...) })
+	if !h.mustNotPanic(p, msg) {
+		return
+	}
+	h.counters["probe:list-of-many-empty-containers"]++
+	if h.bindResult(n, l, h.curOwner) {
+		h.tracef("%s := NewList(%d empty containers)", n.Name, size)
+	}
 }
